@@ -527,6 +527,16 @@ func (g *G) genC03(p *Plan, paging bool) {
 			ops = append(ops, op)
 		}
 	}
+	if c.Faulty {
+		// an overwrite of the only object of a directory, hit by a disk error
+		// after the previous object was unlinked: no empty directory may stay
+		for _, k := range keys {
+			if strings.Contains(k, "/") && g.chance(0.5) {
+				ops = append(ops, Op{K: "put", B: b, Key: k, Body: g.body(g.rng.Intn(60))},
+					Op{K: "put", B: b, Key: k, Body: g.body(g.rng.Intn(60)), Faults: []Fault{{Kind: g.pick("eio", "eio", "enospc"), At: g.n(4, 14), N: g.n(0, 20)}}})
+			}
+		}
+	}
 	if c.Persistent() && g.chance(0.2) {
 		ops = append(ops, Op{K: "restart"})
 	}
